@@ -68,7 +68,7 @@ inductive Res (β α : Type) where
   | error (k : ErrKind)
   | failure (k : ErrKind)
   | panic
-  deriving Repr, Inhabited
+  deriving DecidableEq, Repr, Inhabited
 
 namespace Res
 variable {β α γ : Type}
